@@ -168,6 +168,31 @@ def run_case(case):
                 if sm is not None:
                     check_partition(out, fail, plain.read_result(sm), want, label, what + ", re-read from disk")
                 held.append((("sib", tag, j), got, want))
+        # a function that hands on, as its own result, the partition another function returned (computed just now, served
+        # from the cache, or read back from disk)
+        if not out["viol"]:
+            for l in sorted({rng.randrange(L), L - 1}):
+                if not any(h[0] == l for h in held):
+                    continue
+                pmode = rng.choice(["disk", "cache"] if st._memory_cache is not None else ["disk"])
+                if pmode == "disk" and st._memory_cache is not None:
+                    st._memory_cache.forget_everything()
+                try:
+                    got = ffuncs.passthru(cid, l)
+                except Exception as e:
+                    fail("call returning a partition raises " + type(e).__name__, "%s pass-through of level %d: %r" % (label, l, e))
+                    continue
+                out["obs"]["partitions_handed_on_by_another_function"] += 1
+                what = "level %d handed on by another function (it got it from %s)" % (l, pmode)
+                check_partition(out, fail, got, overlays[l], label, what + ", value handed back by the computing call")
+                mark = REC.mark()
+                again = ffuncs.passthru(cid, l)
+                if REC.since(mark):
+                    fail("a partition result was not memoized (body ran again on the next call)", "%s %s" % (label, what))
+                check_partition(out, fail, again, overlays[l], label, what + ", later call")
+                pm = ffuncs.passthru.memento(cid, l)
+                if pm is not None:
+                    check_partition(out, fail, plain.read_result(pm), overlays[l], label, what + ", re-read from disk")
         # values handed out earlier stay usable after everything else happened, and every level is still
         # served (from the cache, where there is one) as the overlay it was, whatever was stored on top of it
         for item in held:
